@@ -45,6 +45,9 @@ def kernel_rx_queue(port):
     return None
 
 
+USER_EXCEPTIONS = [RuntimeError, KeyError, ValueError, AttributeError, OSError, LookupError, TypeError, ZeroDivisionError]
+
+
 class DeliveryStopped(Exception):
     def __init__(self, ports):
         super().__init__(f"no delivery on ports {ports}")
@@ -98,6 +101,8 @@ class Rig:
         self.ports = net.udp_ports(nports)
         self.callbacks = []          # device objects in invocation order
         self.raise_on = set()        # invocation indices (0-based, sentinels not counted) on which the callback raises
+        self.raise_salt = 0          # rotates the exception class raised
+        self.scribble = False        # the callback modifies the object it was handed (after the harness copied it)
         self.invocations = 0
         self.loop_errors = []
         self.log_records = []
@@ -123,9 +128,24 @@ class Rig:
             return
         idx = self.invocations
         self.invocations += 1
-        self.callbacks.append(device)
+        if self.scribble:
+            # the application keeps working on what it was handed (optimistic state updates, renaming): what the NEXT
+            # callback gets must not be affected.  The harness judges a copy taken before the scribbling.
+            import copy
+            self.callbacks.append(copy.copy(device))
+            for attr, val in (("device_state", None), ("name", "scribbled"), ("ip_address", "0.0.0.0"), ("position", -1),
+                              ("power_consumption", -1), ("target_temperature", -1), ("remote_id", "scribbled")):
+                if hasattr(device, attr):
+                    try:
+                        object.__setattr__(device, attr, val)
+                    except Exception:
+                        pass
+        else:
+            self.callbacks.append(device)
         if idx in self.raise_on:
-            raise RuntimeError(f"user callback failure #{idx}")
+            # user code fails in whatever way user code fails: the class of the exception must not matter
+            exc = USER_EXCEPTIONS[(idx + self.raise_salt) % len(USER_EXCEPTIONS)]
+            raise exc(f"user callback failure #{idx}")
 
     # -- life cycle -------------------------------------------------------------------------
     def callback(self, form="bound-method"):
